@@ -208,8 +208,10 @@ TEXT["C18"] = {
              "into other sections, by a key-shape argument (not_password_of_suffix, leavesUnder_same) and the lemma that on a Plain configuration viper's longest-prefix, backtracking key "
              "resolution (modelled exactly: Cfg.search) walks the key's own components (Proofs/HttpViper.lean: search_plain, norm_plain). The one way in which the statement was false of the code "
              "without the hypothesis — D20: modules a and \"a.extras\", GET /v3/config/notifier/a showed the second module's table, password included, as the extras of a — was found by the "
-             "check and repaired (0423094: the extras are read from the module's own table); dotted_module_no_longer_leaks states the repaired behaviour on that configuration; for configurations "
-             "with dotted names in general the statement is not proved (scalar settings are still read through dotted keys) and rests on the differential run and the containment test. The "
+             "check and repaired (0423094: the extras are read from the module's own table); dotted_module_no_longer_leaks states the repaired behaviour on that configuration; for EVERY configuration, "
+             "dotted names included, no_keyed_read_lands_on_a_password proves that no setting a handler reads by key ever resolves to a password (Proofs/HttpViperSound.lean: search_sound — "
+             "the model of viper's resolution takes a key only to a node whose raw keys spell it — and resolve_avoids_password); what remains outside the general statement are the values of "
+             "the one table-valued read (a notifier's extras, from the module's own table), which rest on the differential run and the containment test. The "
              "scrape does not read configuration at all; `decide` over the facts REGENERATED from package httpserver shows that no viper key literal names a password/secret/token, that the "
              "model reads only suffixes that occur in the source, and pins the list of table-valued viper reads (no_password_key_read, model_reads_only_source_literals, "
              "table_reads_are_the_modelled_ones). Tie: configurations of every module class and profile shape, with plain and dotted names (incl. the D20 pair), passwords of several shapes "
